@@ -412,6 +412,20 @@ func getBodyStructure(rawHeader textproto.Header, r io.Reader, extended bool) im
 			}
 			bs.Children = append(bs.Children, getBodyStructure(part.Header, part, extended))
 		}
+		if len(bs.Children) == 0 {
+			// A multipart body structure must have at least one child on
+			// the wire: describe a multipart without any part as holding a
+			// single empty text part
+			child := &imap.BodyStructureSinglePart{
+				Type:    "text",
+				Subtype: "plain",
+				Text:    &imap.BodyStructureText{},
+			}
+			if extended {
+				child.Extended = &imap.BodyStructureSinglePartExt{}
+			}
+			bs.Children = append(bs.Children, child)
+		}
 		if extended {
 			bs.Extended = &imap.BodyStructureMultiPartExt{
 				Params:      typeParams,
